@@ -350,6 +350,16 @@ func (env *SpecEnv) expr(e ast.Expr) Val {
 		env.fail("index of kind %d", x.K)
 	case *ast.SliceExpr:
 		x := env.expr(t.X)
+		if x.K == KStr {
+			lo, hi := "0", sx("str.len", x.S)
+			if t.Low != nil {
+				lo = env.expr(t.Low).S
+			}
+			if t.High != nil {
+				hi = env.expr(t.High).S
+			}
+			return strVal(x.T, sx("str.substr", x.S, lo, tSub(hi, lo)))
+		}
 		if x.K != KSlice {
 			env.fail("slice expression on kind %d", x.K)
 		}
@@ -743,6 +753,12 @@ func (env *SpecEnv) call(c *ast.CallExpr) Val {
 		case "be64":
 			s, i := env.expr(c.Args[0]), env.expr(c.Args[1])
 			return intVal(types.Typ[types.Int], beTerm(fc, env.st, s, i.S, 8))
+		case "tagof": // dynamic type tag of an interface value
+			return intVal(untypedInt, env.expr(c.Args[0]).Tag)
+		case "valof": // payload identity of an interface value
+			return intVal(untypedInt, env.expr(c.Args[0]).S)
+		case "ref": // object identity
+			return intVal(untypedInt, refOf(env.expr(c.Args[0])))
 		case "held": // held(name): monitor lock currently held
 			name := types.ExprString(c.Args[0])
 			if t, ok := env.st.locks[name]; ok {
@@ -817,6 +833,13 @@ func (env *SpecEnv) call(c *ast.CallExpr) Val {
 				return boolVal(t)
 			case "String":
 				return strVal(types.Typ[types.String], t)
+			}
+			if g.RetT != nil {
+				n := *env
+				n.pkg = g.Pkg
+				if rt := n.resolveType(g.RetT); rt != nil && kindOf(rt) == KAddr {
+					return buildVal(rt, "", func(string, string, types.Type) string { return t })
+				}
 			}
 			return intVal(untypedInt, t)
 		}
